@@ -41,6 +41,7 @@ def dump (s : VS) : String :=
 
 def op? (fs : List String) : Option Op :=
   match fs with
+  | ["mut", f, a] => do pure (.mutate (← f.toNat?) (← attr? a))
   | ["add", f, a] => do pure (.add (← f.toNat?) (← attr? a))
   | ["upd", f, a] => do pure (.update (← f.toNat?) (← attr? a))
   | ["rm", f] => do pure (.remove (← f.toNat?))
